@@ -24,7 +24,7 @@ ASSUMPTIONS = ['simulated device implements the firmware param protocol (read/wr
                'are both accepted for it', 'each (misc command, parameter) pair is outstanding at most once']
 REQUIRED = ['mon.writes_checked', 'mon.refused_checked', 'mon.value_replies', 'mon.callback_invocations',
             'mon.misc_replies', 'mon.one_outstanding_pairs', 'mon.precedence_pairs', 'mon.notifications',
-            'mon.multi_outstanding_misc_cases', 'mon.v1_cases']
+            'mon.multi_outstanding_misc_cases', 'mon.v1_cases', 'mon.state_queries_answered_enoent']
 DESC_TIMEOUT = 900
 
 FLOATS = [0.0, -0.0, 1.5, -2.25, float('inf'), float('-inf'), float('nan'), 1e-45, 3.4028234663852886e38, 1e39,
@@ -125,6 +125,10 @@ def run(desc, ctx):
                 p['ext'] = p['pers'] = True
                 k += 1
     dev = simcf.SimCF(prof)
+    if desc['seed'] % 3 == 0:
+        # the firmware answers "no such entry" to the state query of some parameters the table marks persistent
+        enoent = {i for i, p in enumerate(prof['param']) if p.get('pers') and (i + desc['seed']) % 2 == 0}
+        dev.hooks['persist_err'] = lambda cmd, idx: simcf.ENOENT if (cmd == 4 and idx in enoent) else None
     spec = simlink.LinkSpec(dev, needs_resending=False, latency=0.001)
     uri = 'sim://c04'
     simlink.SIMS[uri] = spec
@@ -429,7 +433,10 @@ def run(desc, ctx):
         if cmd in (3, 5):
             res = [d[3] == 0]
         elif cmd == 4:
-            if d[3] == 0:
+            if d[3] == simcf.ENOENT and len(d) == 4:
+                res = [('state-enoent',)]
+                ctx.count('mon.state_queries_answered_enoent')
+            elif d[3] == 0:
                 res = [('state', False, struct.unpack(fmt, d[4:4 + size])[0], None)]
             else:
                 res = [('state', True, struct.unpack(fmt, d[4:4 + size])[0], struct.unpack(fmt, d[4 + size:4 + 2 * size])[0])]
@@ -449,7 +456,11 @@ def run(desc, ctx):
             if kind != ek or n_ != en or uid2op[u][1] != en:
                 ok = False
                 break
-            if kind == 'state':
+            if kind == 'state' and eres[0] == ('state-enoent',):
+                if r_ is not None:
+                    ok = False
+                    break
+            elif kind == 'state':
                 tup = eres[0]
                 if r_ is None or not (r_.is_stored == tup[1] and _same(r_.default_value, tup[2]) and
                                       (_same(r_.stored_value, tup[3]) if tup[3] is not None else r_.stored_value is None)):
